@@ -52,7 +52,7 @@ def _simple_body(g: Func) -> bool:
     if g.node.decorator_list:
         return False
     a = g.node.args
-    return not (a.vararg or a.kwarg or a.kwonlyargs or a.posonlyargs)
+    return not (a.kwarg or a.kwonlyargs or a.posonlyargs)
 
 
 def _returns(g: Func):
@@ -125,10 +125,18 @@ def _expand(model: Model, f: Func, call: ast.Call, counter: list):
         rest = params[1:]
     else:
         bind, rest = {}, params
-    if len(call.args) > len(rest):
+    va = g.node.args.vararg.arg if g.node.args.vararg is not None else None
+    if len(call.args) > len(rest) and va is None:
         return None
     for p, a in zip(rest, call.args):
         bind[p] = a
+    if va is not None:
+        # *operands: the tuple of the remaining positional arguments (read-only use: iteration, indexing, len)
+        extra = list(call.args[len(rest):])
+        if not all(_pure_arg(a) for a in extra) or any(isinstance(n, ast.Name) and n.id == va and isinstance(n.ctx, (ast.Store, ast.Del)) for n in ast.walk(g.node)):
+            return None
+        bind[va] = ast.Tuple(elts=extra, ctx=ast.Load())
+        params = params + [va]
     for k in call.keywords:
         if k.arg not in rest or k.arg in bind:
             return None
@@ -147,6 +155,8 @@ def _expand(model: Model, f: Func, call: ast.Call, counter: list):
         a = bind[p]
         if isinstance(a, ast.Name) and p not in stored:
             mapping[p] = a.id
+        elif p == va:
+            mapping[p] = a            # the display itself is put in place of the parameter
         else:
             mapping[p] = p + suffix
             st = ast.Assign(targets=[ast.Name(id=p + suffix, ctx=ast.Store())], value=copy.deepcopy(a))
@@ -218,7 +228,7 @@ def _always_returns(stmts):
     return False
 
 
-def _without_early_returns(stmts, cont=()):
+def _without_early_returns(stmts, cont=(), targets=None):
     """`stmts` followed by `cont`, where a bare `return` in stmts skips everything that follows, rewritten without any return:
            if c: A; return          if c: A
            B                  ->    else: B
@@ -228,17 +238,24 @@ def _without_early_returns(stmts, cont=()):
     cont = ()
     for i, s in enumerate(stmts):
         if isinstance(s, ast.Return):
+            if targets is not None:
+                # value helper: `return X` stores X in the caller's target and skips the rest
+                if s.value is None:
+                    return None
+                new = ast.copy_location(ast.Assign(targets=copy.deepcopy(targets), value=s.value), s)
+                ast.fix_missing_locations(new)
+                return out + [new]
             if s.value is not None and not (isinstance(s.value, ast.Constant) and s.value.value is None):
                 return None
             return out
         if isinstance(s, ast.If) and _has_own_return(s):
             rest = stmts[i + 1:] + list(cont)
             if _always_returns(s.body) and not _has_own_return_block(s.orelse):
-                b, o = _without_early_returns(s.body), _without_early_returns(s.orelse, rest)
+                b, o = _without_early_returns(s.body, (), targets), _without_early_returns(s.orelse, rest, targets)
             elif s.orelse and _always_returns(s.orelse) and not _has_own_return_block(s.body):
-                b, o = _without_early_returns(s.body, rest), _without_early_returns(s.orelse)
+                b, o = _without_early_returns(s.body, rest, targets), _without_early_returns(s.orelse, (), targets)
             else:
-                b, o = _without_early_returns(s.body, copy.deepcopy(rest)), _without_early_returns(s.orelse, rest)
+                b, o = _without_early_returns(s.body, copy.deepcopy(rest), targets), _without_early_returns(s.orelse, rest, targets)
             if b is None or o is None:
                 return None
             new = ast.copy_location(ast.If(test=s.test, body=b or [ast.copy_location(ast.Pass(), s)], orelse=o), s)
@@ -247,6 +264,18 @@ def _without_early_returns(stmts, cont=()):
             return None
         out.append(s)
     return out + list(cont)
+
+
+def _always_leaves(stmts):
+    """every path through the statements ends in a return or a raise (no path falls off the end)"""
+    if not stmts:
+        return False
+    last = stmts[-1]
+    if isinstance(last, (ast.Return, ast.Raise)):
+        return True
+    if isinstance(last, ast.If) and last.orelse:
+        return _always_leaves(last.body) and _always_leaves(last.orelse)
+    return False
 
 
 def _has_own_return_block(stmts):
@@ -271,7 +300,8 @@ class _ExprInline(ast.NodeTransformer):
         if self.depth <= 0:
             return n
         g, is_method = _callee(self.model, self.f, n)
-        if g is None or g.qual == self.f.qual or not _simple_body(g) or n.keywords or any(isinstance(a, ast.Starred) for a in n.args):
+        if g is None or g.qual == self.f.qual or not _simple_body(g) or any(k.arg is None for k in n.keywords) or any(isinstance(a, ast.Starred) for a in n.args) \
+                or g.node.args.vararg is not None:
             return n
         body = [st for st in g.node.body if not (isinstance(st, ast.Expr) and isinstance(st.value, ast.Constant) and isinstance(st.value.value, str))]
         if len(body) != 1 or not isinstance(body[0], ast.Return) or body[0].value is None:
@@ -279,7 +309,7 @@ class _ExprInline(ast.NodeTransformer):
         params = g.params()
         args = ([ast.Name(id="self", ctx=ast.Load())] if is_method else []) + list(n.args)
         defaults = g.node.args.defaults
-        if len(args) > len(params) or len(args) < len(params) - len(defaults):
+        if len(args) > len(params) or len(args) + len(n.keywords) < len(params) - len(defaults):
             return n
         if not all(_pure_arg(a) for a in args):
             # any argument may be put in when the body is a chain of conversions rooted at the one parameter: `return S.cpu().numpy()`
@@ -295,8 +325,14 @@ class _ExprInline(ast.NodeTransformer):
                     and sum(1 for x in ast.walk(body[0].value) if isinstance(x, ast.Name) and x.id == params[0]) == 1):
                 return n
         bind = dict(zip(params, args))
+        for k in n.keywords:
+            if k.arg not in params or k.arg in bind or not _pure_arg(k.value):
+                return n
+            bind[k.arg] = k.value
         for p, dflt in zip(params[len(params) - len(defaults):], defaults):
             bind.setdefault(p, dflt)
+        if any(p not in bind for p in params):
+            return n
         # names bound inside the expression (comprehension variables) must not collide with the arguments' names
         inner = {x.id for x in ast.walk(body[0].value) if isinstance(x, ast.Name) and isinstance(x.ctx, ast.Store)}
         if inner & {x.id for a in bind.values() for x in ast.walk(a) if isinstance(x, ast.Name)}:
@@ -354,6 +390,12 @@ def _inline_block(model: Model, f: Func, stmts: list, depth: int, counter: list)
                         # every return ends a branch of a tail if/elif/else chain (the other branches raise): `x = <expr>` in its place
                         inner = _returns_to_assign(body, s.targets, s)
                         out += pro + _inline_block(model, f, inner, depth - 1, counter)
+                        done = True
+                    elif len(rets) > 1 and all(r.value is not None for r in rets) and _always_leaves(body) \
+                            and _without_early_returns(copy.deepcopy(body), (), s.targets) is not None:
+                        # guard-clause style value helper (`if c: return X` ... `return Y`, other paths raise): nested branches that store the value
+                        flat = _without_early_returns(body, (), s.targets)
+                        out += pro + _inline_block(model, f, flat, depth - 1, counter)
                         done = True
                     elif len(rets) == 1 and rets[0] is g.node.body[-1] and rets[0].value is not None and isinstance(body[-1], ast.Return):
                         inner, rv = body[:-1], body[-1].value
@@ -504,6 +546,25 @@ def _inline_local_closures(node, counter):
                 setattr(blk, fld, [ast.Pass()])
 
 
+def _unroll_display_loops(node):
+    """`for x in (a, b): B` over a display of at most four call-free elements, where B neither assigns x nor leaves the loop with break /
+    continue: B with x = a, then B with x = b (what an inlined `*operands` helper leaves behind)"""
+    class U(ast.NodeTransformer):
+        def visit_For(s, n):
+            s.generic_visit(n)
+            if isinstance(n.iter, (ast.Tuple, ast.List)) and len(n.iter.elts) <= 4 and isinstance(n.target, ast.Name) and not n.orelse \
+                    and all(_pure_arg(e) for e in n.iter.elts) \
+                    and not any(isinstance(x, (ast.Break, ast.Continue)) for b in n.body for x in ast.walk(b)) \
+                    and not any(isinstance(x, ast.Name) and x.id == n.target.id and isinstance(x.ctx, (ast.Store, ast.Del)) for b in n.body for x in ast.walk(b)):
+                out = []
+                for e in n.iter.elts:
+                    out += [_Rename({n.target.id: e}).visit(copy.deepcopy(b)) for b in n.body]
+                return out or [ast.copy_location(ast.Pass(), n)]
+            return n
+    U().visit(node)
+    ast.fix_missing_locations(node)
+
+
 def inlined(model: Model, f: Func, depth: int = 2) -> Func:
     """`f` with void / tail calls of private same-module helpers replaced by their bodies (a copy; `f` itself is untouched)"""
     cache = model.__dict__.setdefault("_inline_cache", {})
@@ -514,6 +575,8 @@ def inlined(model: Model, f: Func, depth: int = 2) -> Func:
         _inline_local_closures(node, counter)
         node.body = _inline_block(model, f, node.body, depth, counter)
         _inline_local_closures(node, counter)        # the local helpers of inlined helpers
+        if counter[0]:
+            _unroll_display_loops(node)
         if counter[0] == 0:
             cache[key] = f
         else:
